@@ -212,7 +212,7 @@ pub fn find_module(
     let extension = "koto";
     // Note that `with_extension` would replace the part of a module name that follows a dot.
     let result = search_folder.join(format!("{module_name}.{extension}"));
-    if result.exists() {
+    if result.is_file() {
         // The path is used as the module's key in the module cache, so it needs to be the same
         // path regardless of how the module was referred to (e.g. `shared` and `'../dir/shared'`).
         canonicalize(&result).map_err(|error| {
@@ -229,7 +229,7 @@ pub fn find_module(
             .join(module_name)
             .join("main")
             .with_extension(extension);
-        if result.exists() {
+        if result.is_file() {
             canonicalize(&result).map_err(|error| {
                 ModuleLoaderErrorKind::FailedToCanonicalizePath {
                     path: result,
